@@ -34,7 +34,10 @@ def gen_rename_case(rng):
     store = [[v, f"old{v}"] for v in range(n) if rng.random() < 0.3]
     kw = []
     for j in range(rng.randrange(0, 6)):
-        kw.append([f"k{j}", rng.randrange(n)])
+        key = f"k{j}"
+        if j > 0 and rng.random() < 0.1 and all(k_ != "" for k_, _ in kw):
+            key = ""  # one empty key now and then, never first (keyword dictionaries have distinct keys)
+        kw.append([key, rng.randrange(n)])
     return {"n": n, "kw": kw, "store": store, "raises": rng.random() < 0.5}
 
 
@@ -55,6 +58,8 @@ def run_rename_real(case):
                 raise _Boom()
     except _Boom:
         raised = True
+    except Exception as e:  # noqa: BLE001 - the manager itself refused the keywords: names must still be as before
+        raised = "error:" + type(e).__name__
     return {"inside": inside, "after": [v._name for v in vs], "raised": raised}
 
 
@@ -67,7 +72,8 @@ def judge_rename(case, real):
     if real["after"] != before:
         why = "raising" if case["raises"] else "normal"
         dup = len({i for _, i in case["kw"]}) < len(case["kw"])
-        bad.append((f"name:changed-after-renames-{'raised' if case['raises'] else 'ok'}" + (":dup" if dup else ""),
+        how = "error" if isinstance(real["raised"], str) else ("raised" if case["raises"] else "ok")
+        bad.append((f"name:changed-after-renames-{how}" + (":dup" if dup else ""),
                     f"_temporary_renames({case['kw']}) with a {why} body: names before {before}, after {real['after']}"))
     if real["inside"] is not None:
         for k, i in case["kw"]:
